@@ -55,6 +55,34 @@
    C04 / C05 ("all keys other than the reserved field names", Encoder!InDomain) and inside C06's
    (Encoder.tla, top-key cells).
 
+   route / the std-log and log/slog FRONT ENDS.  Two families do not capture the program counter in
+   a frame the user's statement calls directly: between the library's own frames and the statement
+   sit frames of OTHER packages, and how many depends on what the program called (FrontOf):
+     bridge   (NewLogLogger): every method of *log.Logger writes into the bridge, and so does every
+              package-level function of package log once log.SetOutput(bridge.Writer()) was called.
+              Print/Printf/Println call Logger.output themselves; Panic*/Fatal* call
+              Logger.Output, which calls output; the package-level Output / Panic* / Fatal* go
+              through std.Output as well.  "The statement in user code that issued it" is the caller
+              of the outermost frame of package log - the documented mechanism skips the frames of
+              package log BY NAME and then moves the skip count on (BridgeBase).
+     adapter  (NewSlogHandler): a log/slog Record carries the PC of the statement that issued it -
+              log/slog.Logger captures it in its verbs, log/slog.NewLogLogger(h) in its writer, and a
+              program that wraps log/slog builds the Record with the PC of ITS caller and calls
+              Handler.Handle (log/slog's documented wrapping pattern; "logslog.Handle").  Between
+              Handle of the adapter and that statement may sit any number of other handlers'
+              Handle frames (middleware: route mw1 / mw2).  The documented mechanism starts at the
+              frame the record's PC names and moves the skip count on from there (AdapterBase).
+              A Record without a PC (PC = 0: log/slog says "no program counter is available" - std
+              log.Print after log/slog.SetDefault without Lshortfile, a hand-made Record) names no
+              statement; the property is silent there and such records are not part of the table.
+   The entry points that exist only for this purpose (log.* package level, Fatal*, logslog.Handle,
+   logslog.std.Print = log/slog.NewLogLogger(adapter).Print) and the middleware routes have cells in a
+   narrow sub-table like the //line and ua cells (RouteCells: 3 formats, root / default-root,
+   //go:noinline chains, skip 0..2 via none / SetSkip / WithSkip, chains of skip..2 wrappers);
+   Fatal* ends the process (os.Exit in package log): root logger, chains of exactly skip wrappers,
+   each cell in a process of its own.  The Panic* methods of the bridge's logger are ordinary
+   entry points with the full table.
+
    one cell per state (Init picks an entry point and logger kind, Next any cell of that pair),
    evaluates the invariants below in every cell and exports the table (Export); the Go worker
    issues every cell on the real library and CallerTrace.tla validates what the records really
@@ -79,6 +107,10 @@
      AttributionAtIssuer   sentence 1+2: reported frame = user frame `skip` (0 = the issuing
                            statement) for every entry point / format / kind / inlining - "reported"
                            = what a last-wins reader of the record gets (Seen)
+     RouteIndependent      handlers a record passes before the adapter (middleware) and which function
+                           of a front end was called (package log's method set and package-level
+                           functions, log/slog's verbs / std-log writer / a wrapper's own Record)
+                           change nothing
      CallerSurvivesUserAttr  an attribute named caller (plain or group; record, logger, handler)
                            changes nothing: Seen(cell) = Seen(the same cell without it)
      SkipMovesExactlyN     sentence 2: skip n moves the attribution exactly n frames up from
@@ -94,6 +126,10 @@
    recognise a listed known finding.
      BridgeIgnoresSkip     the std-log bridge (NewLogLogger) strips a fixed number of frames and
                            never looks at the logger's skip count.
+     BridgeFixedDepth      the std-log bridge strips a fixed number of frames (4: right for
+                           Print/Printf/Println/Output of the bridge's own logger only).
+     AdapterFixedDepth     the log/slog adapter ignores the record's PC and strips a fixed number
+                           of frames (right for a verb of a log/slog.Logger built directly on it).
      CallerBeforeAttrs     JSON / logfmt write the built-in caller member in front of the
                            attributes ("fixed members first"): an attribute named caller then
                            follows it and is what a last-wins reader reports.                   *)
@@ -108,7 +144,7 @@ CONSTANTS MaxDepthInl,   \* deepest wrapper chain of inlinable wrappers
 VARIABLES cell,          \* the cell under consideration
           phase          \* "seed": an (entry point, kind) pair was picked; "cell": a full cell
 
-AllDevs == {"BridgeIgnoresSkip", "CallerBeforeAttrs"}
+AllDevs == {"BridgeIgnoresSkip", "CallerBeforeAttrs", "BridgeFixedDepth", "AdapterFixedDepth"}
 
 Larger(a, b) == IF a > b THEN a ELSE b
 MaxSkip == Larger(MaxDepthInl, MaxDepthNo)
@@ -122,6 +158,12 @@ Verbs == {"Panic", "Fatal", "Error", "Warn", "Info", "Debug", "Trace", "Print", 
 CtxVerbs == {"PanicContext", "FatalContext", "ErrorContext", "WarnContext", "InfoContext", "DebugContext",
              "TraceContext", "PrintContext", "PrintlnContext", "OKContext", "SuccessContext", "FailContext"}
 
+StdVerbs == {"Print", "Printf", "Println", "Output", "Panic", "Panicf", "Panicln", "Fatal", "Fatalf", "Fatalln"}
+(* functions of package log that end the process after the record was written *)
+TermEPNames == {p \o v : p \in {"stdlog.", "log."}, v \in {"Fatal", "Fatalf", "Fatalln"}}
+(* entry points that have cells in the route sub-table only *)
+NarrowEPNames == {"log." \o v : v \in StdVerbs} \cup TermEPNames \cup {"logslog.Handle", "logslog.std.Print"}
+
 EPNames(f) ==
     CASE f = "verb"    -> Verbs                                   \* logger.Info(...) ... logger.Println(...)
       [] f = "ctx"     -> CtxVerbs                                \* logger.InfoContext(ctx, ...)
@@ -132,26 +174,54 @@ EPNames(f) ==
       [] f = "adapter" -> {"logslog." \o v : v \in {"Debug", "Info", "Warn", "Error", "DebugContext", "InfoContext",
                                                     "WarnContext", "ErrorContext", "Log", "LogAttrs"}}
                                                                   \* log/slog.Logger over NewSlogHandler
-      [] f = "bridge"  -> {"stdlog." \o v : v \in {"Print", "Printf", "Println", "Output"}}
-                                                                  \* log.Logger from NewLogLogger
+                          \cup {"logslog.Handle",                \* Handler.Handle with a Record the program built (own PC)
+                                "logslog.std.Print"}              \* log/slog.NewLogLogger(handler, level).Print
+      [] f = "bridge"  -> {"stdlog." \o v : v \in StdVerbs}       \* log.Logger from NewLogLogger: its whole method set
+                          \cup {"log." \o v : v \in StdVerbs}     \* package log itself after log.SetOutput(bridge.Writer())
 
 EPs == UNION {{[name |-> n, fam |-> f] : n \in EPNames(f)} : f \in Families}
+FullEPs == {e \in EPs : e.name \notin NarrowEPNames}           \* entry points with the full table
 
-(* Library frames between runtime.Callers (index 0) and the user's statement, innermost first.
-   "<ep>" stands for the public function/method the user called.  Compiler generated method
-   wrappers (logimp.Info for a detached root) are elided by runtime.Callers and not listed. *)
-LibNames(f) ==
+(* The library's OWN frames from runtime.Callers (index 0) outwards, innermost first.  "<ep>"
+   stands for the public function/method the user called.  Compiler generated method wrappers
+   (logimp.Info for a detached root) are elided by runtime.Callers and not listed.  For the two
+   front-end families the frames of the other packages follow (FrontOf). *)
+OwnNames(f) ==
     CASE f = "verb"    -> <<"runtime.Callers", "getpc", "Entry.log1", "<ep>">>
       [] f = "ctx"     -> <<"runtime.Callers", "getpc", "<ep>">>
       [] f = "attrs"   -> <<"runtime.Callers", "getpc", "<ep>">>
       [] f = "printf"  -> <<"runtime.Callers", "getpc", "<ep>">>
       [] f = "pkgverb" -> <<"runtime.Callers", "getpc", "logctxctx", "logctx", "<ep>">>
       [] f = "pkgctx"  -> <<"runtime.Callers", "getpc", "logctxctx", "<ep>">>
-      [] f = "adapter" -> <<"runtime.Callers", "handler4LogSlog.Handle", "log/slog.Logger.log", "<ep>">>
-      [] f = "bridge"  -> <<"runtime.Callers", "getpc", "handlerWriter.Write", "log.Logger.output", "<ep>">>
+      [] f = "adapter" -> <<"runtime.Callers", "handler4LogSlog.Handle">>
+      [] f = "bridge"  -> <<"runtime.Callers", "getpc", "handlerWriter.Write">>
 
-(* The constant each family passes as `skip` (getpc adds 1 for itself; the adapter calls
-   runtime.Callers directly). *)
+(* Frames of other packages between the library and the user's statement, innermost first, each with
+   the package it belongs to ("<ep>": the function of that package the user called). *)
+Fr(n, p) == [n |-> n, p |-> p]
+(* functions of package log that reach Logger.output through Logger.Output *)
+StdViaOutput == {"stdlog." \o v : v \in StdVerbs \ {"Print", "Printf", "Println", "Output"}}
+                \cup {"log." \o v : v \in StdVerbs \ {"Print", "Printf", "Println"}}
+Routes == {"direct", "mw1", "mw2"}
+Middleware(r) == CASE r = "mw1" -> <<Fr("middleware.Handle", "other")>>
+                   [] r = "mw2" -> <<Fr("middleware.Handle", "other"), Fr("middleware.Handle", "other")>>
+                   [] OTHER -> <<>>
+FrontOf(c) ==
+    CASE c.fam = "bridge" ->
+           IF c.ep \in StdViaOutput
+           THEN <<Fr("log.Logger.output", "log"), Fr("log.Logger.Output", "log"), Fr("<ep>", "log")>>
+           ELSE <<Fr("log.Logger.output", "log"), Fr("<ep>", "log")>>
+      [] c.fam = "adapter" ->
+           Middleware(c.route) \o
+           (CASE c.ep = "logslog.Handle" -> <<Fr("helper building the Record", "other")>>
+              [] c.ep = "logslog.std.Print" -> <<Fr("log/slog.handlerWriter.Write", "log/slog"), Fr("log.Logger.output", "log"),
+                                                 Fr("<ep>", "log")>>
+              [] OTHER -> <<Fr("log/slog.Logger.log", "log/slog"), Fr("<ep>", "log/slog")>>)
+      [] OTHER -> <<>>
+NLib(c) == Len(OwnNames(c.fam)) + Len(FrontOf(c))
+
+(* The constant each family passes as `skip` (getpc adds 1 for itself).  The two front-end families
+   do not count (BridgeBase, AdapterBase); what they counted once is the deviation. *)
 Const(f) ==
     CASE f = "verb"    -> 3          \* log1: getpc(3, extra)
       [] f = "ctx"     -> 2          \* getpc(2, extra)
@@ -159,8 +229,8 @@ Const(f) ==
       [] f = "printf"  -> 2
       [] f = "pkgverb" -> 3 + 1      \* logctx -> logctxctx(ctx, 1, ...): getpc(3+inc, extra)
       [] f = "pkgctx"  -> 3 + 0      \* logctxctx(ctx, 0, ...)
-      [] f = "adapter" -> 3 + 1      \* runtime.Callers(3+1+skip)
-      [] f = "bridge"  -> 4          \* getpc(4, extra)
+      [] f = "adapter" -> 3 + 1      \* (deviation AdapterFixedDepth) runtime.Callers(3+1+skip)
+      [] f = "bridge"  -> 4          \* (deviation BridgeFixedDepth) getpc(4, extra)
 ViaGetpc(f) == f # "adapter"
 
 -----------------------------------------------------------------------------
@@ -208,7 +278,7 @@ ShapesNo == Shapes(FALSE)
 ShapesOf(inl) == IF inl THEN ShapesInl ELSE ShapesNo
 
 (* (built as one set comprehension: TLC's UNION is quadratic in the number of elements) *)
-EPKinds == UNION {{<<e, k>> : k \in KindsOf(e.fam)} : e \in EPs}
+EPKinds == UNION {{<<e, k>> : k \in KindsOf(e.fam)} : e \in FullEPs}
 ShapesAll == {<<TRUE, sh>> : sh \in ShapesInl} \cup {<<FALSE, sh>> : sh \in ShapesNo}
 
 (* call sites behind //line directives: one entry point per calling convention of every family
@@ -235,31 +305,56 @@ UAOf(f) == {u \in UAttrs : /\ UAWhere(u) = "rec" => f \in {"verb", "ctx", "attrs
 UAEPNames == {"Info", "InfoContext", "LogAttrs", "Infof", "slog.Warn", "logslog.Info", "logslog.LogAttrs", "stdlog.Print"}
 UAEPKinds == {ek \in EPKinds : ek[1].name \in UAEPNames /\ ek[2] \in LineKinds(ek[1].fam)}
 
+(* front ends and routes (see the header).  RouteOf(name): the routes an entry point has cells for in
+   the sub-table; kinds: root / default-root, the terminating functions on a root only *)
+RouteEPNames == NarrowEPNames \cup {"logslog.Info", "logslog.LogAttrs"}
+RouteOf(n) == IF n \in {"logslog.Info", "logslog.LogAttrs"} THEN {"mw1", "mw2"}      \* (their direct cells are in the full table)
+              ELSE IF n \in {"logslog.Handle", "logslog.std.Print"} THEN Routes
+              ELSE {"direct"}
+RouteKinds(e) == IF e.name \in TermEPNames THEN {"root"} ELSE LineKinds(e.fam)
+RouteEPKinds == UNION {{<<e, k>> : k \in RouteKinds(e)} : e \in {x \in EPs : x.name \in RouteEPNames}}
+AllEPKinds == EPKinds \cup {ek \in RouteEPKinds : ek[1].name \in NarrowEPNames}
+
 (* the table; an operator with a parameter because TLC evaluates every parameterless constant
    definition eagerly, once per worker, and this one is large *)
 GoCellsOver(eks) == {[ep |-> ek[1].name, fam |-> ek[1].fam, fmt |-> f, kind |-> ek[2], inl |-> ns[1],
                       via |-> ns[2][1], skip |-> ns[2][2], other |-> ns[2][3], depth |-> ns[2][4], site |-> "go",
-                      ua |-> "none"] :
-                          ek \in eks, f \in Formats, ns \in ShapesAll}
+                      ua |-> "none", route |-> "direct"] :
+                          ek \in eks \cap EPKinds, f \in Formats, ns \in ShapesAll}
 LineCellsOver(eks) == {[ep |-> ek[1].name, fam |-> ek[1].fam, fmt |-> f, kind |-> ek[2], inl |-> FALSE,
-                        via |-> sh[1], skip |-> sh[2], other |-> sh[3], depth |-> sh[4], site |-> s, ua |-> "none"] :
+                        via |-> sh[1], skip |-> sh[2], other |-> sh[3], depth |-> sh[4], site |-> s, ua |-> "none",
+                        route |-> "direct"] :
                             ek \in eks \cap LineEPKinds, f \in Formats, sh \in LineShapes, s \in LineSites}
 UACellsOver(eks) == {[ep |-> ek[1].name, fam |-> ek[1].fam, fmt |-> f, kind |-> ek[2], inl |-> FALSE,
-                      via |-> sh[1], skip |-> sh[2], other |-> sh[3], depth |-> sh[4], site |-> "go", ua |-> u] :
+                      via |-> sh[1], skip |-> sh[2], other |-> sh[3], depth |-> sh[4], site |-> "go", ua |-> u,
+                      route |-> "direct"] :
                           ek \in eks \cap UAEPKinds, f \in Formats, sh \in LineShapes, u \in UAttrs}
 (* (the parts are never united: TLC enumerates a union by testing every element of the second
    set for membership in the first; UACellsOver ranges over all of UAttrs and is filtered by IsCell
    where it is used) *)
 UACells(eks) == {c \in UACellsOver(eks) : c.ua \in UAOf(c.fam)}
+RouteCellsOver(eks) == {[ep |-> ek[1].name, fam |-> ek[1].fam, fmt |-> f, kind |-> ek[2], inl |-> FALSE,
+                         via |-> sh[1], skip |-> sh[2], other |-> sh[3], depth |-> sh[4], site |-> "go", ua |-> "none",
+                         route |-> r] :
+                             ek \in eks \cap RouteEPKinds, f \in Formats, sh \in LineShapes, r \in Routes}
+(* (a process per cell for the terminating functions: chains of exactly `skip` wrappers) *)
+RouteCells(eks) == {c \in RouteCellsOver(eks) : /\ c.route \in RouteOf(c.ep)
+                                                /\ c.ep \in TermEPNames => c.depth = c.skip}
 CellsOver(eks) == GoCellsOver(eks)
 NCells == Cardinality(EPKinds) * Cardinality(Formats) * Cardinality(ShapesAll)
           + Cardinality(LineEPKinds) * Cardinality(Formats) * Cardinality(LineShapes) * Cardinality(LineSites)
           + Cardinality(UACells(EPKinds))
+          + Cardinality(RouteCells(RouteEPKinds))
 
 IsCell(c) ==
     /\ [name |-> c.ep, fam |-> c.fam] \in EPs
     /\ c.fmt \in Formats /\ c.kind \in KindsOf(c.fam) /\ c.inl \in BOOLEAN
     /\ <<c.via, c.skip, c.other, c.depth>> \in ShapesOf(c.inl)
+    /\ c.route \in Routes
+    /\ \/ c.route = "direct" /\ c.ep \notin NarrowEPNames
+       \/ /\ c.route \in RouteOf(c.ep) /\ c.site = "go" /\ c.ua = "none" /\ ~c.inl     \* (the sub-table enumerates the terminating
+          /\ <<[name |-> c.ep, fam |-> c.fam], c.kind>> \in RouteEPKinds                \* functions with depth = skip only)
+          /\ <<c.via, c.skip, c.other, c.depth>> \in LineShapes
     /\ \/ c.ua = "none"
        \/ /\ c.ua \in UAOf(c.fam) /\ c.site = "go" /\ ~c.inl
           /\ <<[name |-> c.ep, fam |-> c.fam], c.kind>> \in UAEPKinds
@@ -276,14 +371,30 @@ LibFrame == [k |-> "lib", i |-> -1]
 UserFrame(j) == [k |-> "user", i |-> j]              \* 0 = site .. d = wrap_d, d+1 = driver
 NoFrame == [k |-> "none", i |-> -1]
 
-Stack(c) == [x \in 1..Len(LibNames(c.fam)) |-> LibFrame] \o [x \in 1..(c.depth + 2) |-> UserFrame(x - 1)]
+Stack(c) == [x \in 1..NLib(c) |-> LibFrame] \o [x \in 1..(c.depth + 2) |-> UserFrame(x - 1)]
 
 (* the skip count the capture really uses *)
 Extra(c, D) == IF c.fam = "bridge" /\ "BridgeIgnoresSkip" \in D THEN 0 ELSE FinalSkip(c)
 
-CallersArg(c, D) == Const(c.fam) + Extra(c, D) + (IF ViaGetpc(c.fam) THEN 1 ELSE 0)
+(* Where the attribution starts (1-based position in Stack; the skip count is added to it).
+   getpc families: the constant of the family.
+   bridge: the first frame above handlerWriter.Write that is not a frame of package log.
+   adapter: the frame the record's PC names - every front end (log/slog.Logger, log/slog's std-log
+   writer, a helper of the program following log/slog's wrapping pattern) captures the PC of the
+   statement that called INTO it, i.e. of the caller of its outermost frame.                     *)
+RECURSIVE LeadingIn(_, _)
+LeadingIn(q, p) == IF q = <<>> \/ Head(q).p # p THEN 0 ELSE 1 + LeadingIn(Tail(q), p)
+BridgeBase(c) == Len(OwnNames("bridge")) + LeadingIn(FrontOf(c), "log") + 1
+AdapterBase(c) == NLib(c) + 1
+CountedBase(c) == Const(c.fam) + (IF ViaGetpc(c.fam) THEN 1 ELSE 0) + 1
+Base0(c, D) == CASE c.fam = "bridge" /\ "BridgeFixedDepth" \notin D -> BridgeBase(c)
+                 [] c.fam = "adapter" /\ "AdapterFixedDepth" \notin D -> AdapterBase(c)
+                 [] OTHER -> CountedBase(c)
 
-AttrD(c, D) == LET s == Stack(c)  a == CallersArg(c, D) + 1      \* sequences are 1-based
+Pos(c, D) == Base0(c, D) + Extra(c, D)
+CallersArg(c, D) == Pos(c, D) - 1          \* what runtime.Callers is (in effect) asked to skip
+
+AttrD(c, D) == LET s == Stack(c)  a == Pos(c, D)
                IN IF a <= Len(s) THEN s[a] ELSE NoFrame
 
 (* The record as a reader sees it.  Members named like the caller field, in the order they are
@@ -298,8 +409,6 @@ SeenD(c, D) == IF LastOf(Written(c, D)) = "site" THEN AttrD(c, D) ELSE UserVal
 Attributed(c) == SeenD(c, Devs)
 
 Want(c) == UserFrame(c.skip)
-
-Pos(c, D) == CallersArg(c, D) + 1
 
 -----------------------------------------------------------------------------
 (* The property *)
@@ -330,6 +439,15 @@ ViaIndependent == cell.via = "Set" =>
         LET c == [cell EXCEPT !.via = v, !.other = o] IN IsCell(c) => Attributed(c) = Attributed(cell)
 (* an attribute of the program that is named like the built-in member does not matter *)
 CallerSurvivesUserAttr == cell.ua # "none" => Attributed(cell) = Attributed([cell EXCEPT !.ua = "none"])
+(* neither the handlers a record passes on its way to the adapter nor the function of the front end
+   that was called matter: the sub-table cells of a family agree with each other and, where the
+   entry point has them, with the direct cells *)
+RouteIndependent ==
+    /\ cell.route = "direct" =>
+          \A r \in Routes : LET c == [cell EXCEPT !.route = r] IN IsCell(c) => Attributed(c) = Attributed(cell)
+    /\ cell.ep \in RouteEPNames =>
+          \A e \in {x \in EPs : x.fam = cell.fam /\ x.name \in RouteEPNames}, r \in Routes :
+              LET c == [cell EXCEPT !.ep = e.name, !.route = r] IN IsCell(c) => Attributed(c) = Attributed(cell)
 (* what the source file of the chain's frames is called does not matter *)
 SiteIndependent == cell.site = "go" =>
     \A s \in LineSites : LET c == [cell EXCEPT !.site = s] IN IsCell(c) => Attributed(c) = Attributed(cell)
@@ -337,29 +455,35 @@ WithinChain == Attributed(cell).k = "user" /\ Attributed(cell).i <= cell.depth
 
 (* Enumeration: an initial state fixes (entry point, logger kind); its successors are all cells of
    that pair (so TLC's workers share the table); cells have no successors (no deadlock check). *)
-CellsFor(e, k) == CellsOver({<<e, k>>})
-InitFams(F) == /\ phase = "seed"
-               /\ cell \in {CHOOSE c \in CellsFor(ek[1], ek[2]) : TRUE : ek \in {x \in EPKinds : x[1].fam \in F}}
+CellsFor(e, k) == IF e.name \in NarrowEPNames THEN RouteCells({<<e, k>>}) ELSE CellsOver({<<e, k>>})
+InitOver(eks) == /\ phase = "seed"
+                 /\ cell \in {CHOOSE c \in CellsFor(ek[1], ek[2]) : TRUE : ek \in eks}
+InitFams(F) == InitOver({x \in AllEPKinds : x[1].fam \in F})
 Init == InitFams(Families)
-InitBridge == InitFams({"bridge"})       \* witness runs for the bridge deviation
+InitBridge == InitOver({x \in EPKinds : x[1].fam = "bridge"})       \* witness runs for the bridge deviations
+InitAdapter == InitOver({x \in AllEPKinds : x[1].fam = "adapter" /\ x[1].name \in RouteEPNames})  \* ... for AdapterFixedDepth
 InitUA == /\ phase = "seed"               \* witness run for CallerBeforeAttrs: the entry points that have UA cells
           /\ cell \in {CHOOSE c \in CellsFor(ek[1], ek[2]) : TRUE : ek \in {x \in UAEPKinds : x[1].fam \in {"attrs", "adapter"}}}
 Next == /\ phase = "seed" /\ phase' = "cell"
         /\ \/ cell' \in GoCellsOver({<<[name |-> cell.ep, fam |-> cell.fam], cell.kind>>})
            \/ cell' \in LineCellsOver({<<[name |-> cell.ep, fam |-> cell.fam], cell.kind>>})
            \/ cell' \in UACells({<<[name |-> cell.ep, fam |-> cell.fam], cell.kind>>})
+           \/ cell' \in RouteCells({<<[name |-> cell.ep, fam |-> cell.fam], cell.kind>>})
 Spec == Init /\ [][Next]_<<cell, phase>>
 
 -----------------------------------------------------------------------------
 (* Export of the table: one JSON object per cell with the frame the property demands *)
 
 Row(c) == [ep |-> c.ep, fam |-> c.fam, fmt |-> c.fmt, kind |-> c.kind, inl |-> c.inl, via |-> c.via,
-           skip |-> c.skip, other |-> c.other, depth |-> c.depth, site |-> c.site, ua |-> c.ua, want |-> Want(c)]
+           skip |-> c.skip, other |-> c.other, depth |-> c.depth, site |-> c.site, ua |-> c.ua, route |-> c.route, want |-> Want(c)]
 
 Export(file) ==
           /\ ndJsonSerialize(file, SetToSeq({Row(c) : c \in GoCellsOver(EPKinds)})
                                     \o SetToSeq({Row(c) : c \in LineCellsOver(EPKinds)})
-                                    \o SetToSeq({Row(c) : c \in UACells(EPKinds)}))
+                                    \o SetToSeq({Row(c) : c \in UACells(EPKinds)})
+                                    \o SetToSeq({Row(c) : c \in RouteCells(RouteEPKinds)}))
+          /\ PrintT("@@routeeps " \o ToJson(SetToSeq(RouteEPNames)))
+          /\ PrintT("@@termeps " \o ToJson(SetToSeq(TermEPNames)))
           /\ PrintT("@@eps " \o ToJson(SetToSeq({e.name : e \in EPs})))
           /\ PrintT("@@lineeps " \o ToJson(SetToSeq(LineEPNames)))
           /\ PrintT("@@uaeps " \o ToJson(SetToSeq(UAEPNames)))
